@@ -217,9 +217,15 @@ def _is_last_ok(prog, b, a):
         elif o[0] == "rvalue" and o[1]["k"] == "binop" and o[1]["op"] == "Eq":
             ia = b.prov.op_src(o[1]["a"])
             ib = b.prov.op_src(o[1]["b"])
-            idx = any(z.kind == "call" and "Enumerate" in z.a and z.a.endswith("::next") for z in ia)
+            if not any(z.kind == "call" and "Enumerate" in z.a and z.a.endswith("::next") for z in ia):
+                ia, ib = ib, ia         # `len - 1 == i`
+            idx = any(z.kind == "call" and "Enumerate" in z.a and z.a.endswith("::next") for z in ia) and \
+                not any(z.kind == "binop" or (z.kind == "call" and z.a.endswith("::len")) for z in ia)
+            # len - 1, in any subtraction spelling (the loop body only runs when len >= 1)
             ln = any(z.kind == "call" and z.a.endswith("::len") for z in ib) and any(z.kind == "const" and z.a.startswith("1_") for z in ib) and \
-                any(z.kind == "binop" and z.a.startswith("Sub") for z in ib)
+                (any(z.kind == "binop" and z.a.startswith("Sub") for z in ib) or
+                 any(z.kind == "call" and z.a in ("core::num::wrapping_sub", "core::num::saturating_sub") for z in ib)) and \
+                not any(z.kind == "binop" and not z.a.startswith("Sub") for z in ib) and not any(z.kind == "call" and "Enumerate" in z.a for z in ib)
             # same collection: the len() receiver and the iterator share an origin
             it_base = {z.label() for z in ia if z.kind in ("param", "upvar") or (z.kind == "call" and z.a.endswith(("::iter", "unwrap_or_default")))}
             ln_base = {z.label() for z in ib if z.kind in ("param", "upvar") or (z.kind == "call" and z.a.endswith(("::iter", "unwrap_or_default")))}
